@@ -643,7 +643,11 @@ class P:
                 e = ("unit",)
             else:
                 e = self.expr()
-                if self.accept("op", ".."):
+                if self.accept("op", "..="):
+                    hi = self.expr()
+                    self.expect("op", ")")
+                    e = ("range", e, ("bin", "+", ("paren", hi), ("num", 1, None)))
+                elif self.accept("op", ".."):
                     hi = self.expr()
                     self.expect("op", ")")
                     e = ("range", e, hi)
